@@ -115,8 +115,12 @@ CLAIMED = {
         technique="Lean 4 theorems over an executable model of Analyzer/QuickSampler + impl-vs-impl relation oracle "
                   "and model correspondence",
         note="Proved: analyzer entry = marginal over loss configurations = sampler lookup; outputs = accepted "
-             "candidates; performance / error-rate definitions; quick sampler = normalised conditional (sums to one); "
-             "squared simulator amplitude = sampler probability (lossless). Division by a zero accepted total is "
+             "candidates; performance / error-rate definitions; the error rate is one minus the accepted-and-expected "
+             "fraction with the expected list read as a set and always lies in [0,1] (F31: the pinned fold counted "
+             "duplicates twice and could go negative - kernel-checked witness); quick sampler = normalised conditional "
+             "(sums to one); squared simulator amplitude = sampler probability (lossless). The check also drives all "
+             "four objects through histories (every ordered pair of reads around every reconfiguration) and expected "
+             "mappings of every accepted shape. Division by a zero accepted total is "
              "undefined in the code (NaN) and total in the model; compared only when defined.",
         ref="§5 C05"),
     "C07": dict(
